@@ -188,9 +188,9 @@ class PedFilter(SubCheck):
         climod.PhasedInputReader = None
         w = SymWorld(overrides={"whatshap.core": core_model, "whatshap.cli": climod, "whatshap.readselect": types.SimpleNamespace(readselection=None)})
         self.sym = dict(phase=w.load("whatshap.cli.phase"), vcf=w.load("whatshap.vcf"), ped=w.load("whatshap.pedigree"), core=core_model)
-        from vf import build
+        from vf.models import vcfdoc
 
-        build.load_real(["core"])
+        vcfdoc.ensure_real()  # core, align, _variants rebuilt from the working tree: the set the `run` sub-check loads in the same worker
         import whatshap.cli.phase as rp, whatshap.vcf as rv, whatshap.pedigree as rped, whatshap.core as rc
 
         self.real = dict(phase=rp, vcf=rv, ped=rped, core=rc)
